@@ -398,13 +398,13 @@ func (ro *Roles) schedulableAgreement(r *Report, rule string) {
 	detail := ""
 	if okQ {
 		aa := splitArgs(strings.TrimSuffix(strings.TrimPrefix(accAP, prefix), ")"))
-		okQ = len(aa) >= 3 && aa[0] == "recv" && aa[1] == "arg0" && aa[len(aa)-1] == "false"
+		okQ = len(aa) >= 3 && aa[0] == "recv" && aa[1] == "arg0" && ro.isModeConst(aa[len(aa)-1], false)
 		for _, lf := range flags {
 			if lf.ap == "" {
 				continue
 			}
 			sa := splitArgs(strings.TrimSuffix(strings.TrimPrefix(lf.ap, prefix), ")"))
-			if !(len(sa) == len(aa) && sa[0] == "recv" && sa[1] == lf.key && sa[len(sa)-1] == "false") {
+			if !(len(sa) == len(aa) && sa[0] == "recv" && sa[1] == lf.key && ro.isModeConst(sa[len(sa)-1], false)) {
 				okQ = false
 				detail = lf.ap + " for the listed pipeline " + lf.key
 			}
